@@ -18,25 +18,29 @@
    WarmBuild prints what the Build printed.
 *)
 EXTENDS Naturals, Sequences, FiniteSets, TLC, Json
-CONSTANTS Seeds, Worlds, NFiles, MaxPrior, PriorOpts
-VARIABLES seed, order, prior, world, result, written, warm, phase
-vars == <<seed, order, prior, world, result, written, warm, phase>>
+CONSTANTS Seeds, Worlds, NFiles, MaxPrior, PriorOpts,
+          MeasuredOpts,      \* options of the measured build itself ("default", or a non-default set: process-wide state that an
+                             \* earlier DEFAULT build switched on must not leak into a build that asks for something else)
+          SlowWorlds         \* worlds checked against the bundled typeshed: never used as prior builds, the only ones measured with non-default options
+VARIABLES seed, order, prior, world, mopts, result, written, warm, phase
+vars == <<seed, order, prior, world, mopts, result, written, warm, phase>>
 Perms(n) == {p \in [1..n -> 1..n] : \A i, j \in 1..n : i # j => p[i] # p[j]}
-\* the abstract build: depends on `world` alone (the measured build always runs with the default options)
+\* the abstract build: depends on `world` and the measured build's own options alone
 F(w) == [diag |-> w, records |-> w]
 Init == /\ seed \in Seeds /\ world \in Worlds /\ order \in Perms(NFiles) /\ prior = <<>>
+        /\ mopts \in MeasuredOpts /\ (mopts # "default" => world \in SlowWorlds)
         /\ result = "none" /\ written = "none" /\ warm = "none" /\ phase = "prior"
 PriorBuild == /\ phase = "prior" /\ Len(prior) < MaxPrior
-              /\ \E w \in Worlds, o \in PriorOpts : prior' = Append(prior, [world |-> w, opts |-> o])
-              /\ UNCHANGED <<seed, order, world, result, written, warm, phase>>
-Build == /\ phase = "prior" /\ result' = F(world).diag /\ written' = F(world).records /\ phase' = "cold"
-         /\ UNCHANGED <<seed, order, prior, world, warm>>
+              /\ \E w \in Worlds \ SlowWorlds, o \in PriorOpts : prior' = Append(prior, [world |-> w, opts |-> o])
+              /\ UNCHANGED <<seed, order, world, mopts, result, written, warm, phase>>
+Build == /\ phase = "prior" /\ result' = F(<<world, mopts>>).diag /\ written' = F(<<world, mopts>>).records /\ phase' = "cold"
+         /\ UNCHANGED <<seed, order, prior, world, mopts, warm>>
 WarmBuild == /\ phase = "cold" /\ warm' = written /\ phase' = "done"
-             /\ UNCHANGED <<seed, order, prior, world, result, written>>
+             /\ UNCHANGED <<seed, order, prior, world, mopts, result, written>>
 Next == PriorBuild \/ Build \/ WarmBuild
 Spec == Init /\ [][Next]_vars
 \* non-interference: the outcome is determined by the world
-Deterministic == phase # "prior" => (result = F(world).diag /\ written = F(world).records)
+Deterministic == phase # "prior" => (result = F(<<world, mopts>>).diag /\ written = F(<<world, mopts>>).records)
 WarmSame == phase = "done" => warm = result
-Emit == phase = "done" => PrintT(<<"CFG", ToJson([seed |-> seed, order |-> order, prior |-> prior, world |-> world])>>)
+Emit == phase = "done" => PrintT(<<"CFG", ToJson([seed |-> seed, order |-> order, prior |-> prior, world |-> world, mopts |-> mopts])>>)
 ==========================================================================
